@@ -83,6 +83,9 @@ def families(tier, seed):
             _fam("CH4+H2O", 1e-8, False, ["angular", 2], "mb", 0, t, rot),
             _fam("CH4+H2O", 1e-11, True, None, "user", 0, t, rot),
             _fam("H2CO", 1e-11, True, None, "mb", 1, t, rot),
+            _fam("H2O", 1e-8, False, None, "user", 0, t, rot),
+            _fam("H2CO", 1e-11, False, ["angular", 2], "mb", 0, t, rot),
+            _fam("CH4+H2O", 1e-11, False, ["linear", 3], "mb", 0, t, rot),
         ]
     else:
         t = 4.0
@@ -288,6 +291,7 @@ def per_run_oracles(f, r, nsteps, mols, check_ep=True):
 
 
 JUMP_FLOOR = 1.0e-8  # eV; smaller steps in E(t) are not looked at
+JUMP_DT_MAX = 0.05  # fs
 
 
 def find_jumps(E):
@@ -308,7 +312,8 @@ def find_jumps(E):
 
 def bfn_crossing(member, xa, xb):
     """does any orbital pair's beta = 0.5 R/a0 (zeta_a - zeta_b) cross the |beta| = 0.5 series/closed-form switch of
-    diat_overlap.bintgs between geometries xa and xb?  Returns a description or ''."""
+    diat_overlap*.bintgs between geometries xa and xb?  Returns None or dict(text, lam) with lam the point of the
+    segment xa + lam (xb - xa) where the crossing happens."""
     from seqm.seqm_functions.constants import a0
 
     mol, _ = sp.build([member], sp.make_params("AM1"))
@@ -317,17 +322,37 @@ def bfn_crossing(member, xa, xb):
     n = len(member["species"])
     for i in range(n):
         for j in range(i + 1, n):
-            ra = np.linalg.norm(xa[i] - xa[j]) / a0
-            rb = np.linalg.norm(xb[i] - xb[j]) / a0
             for zi, li in ((zs[i], "s"), (zp[i], "p")):
                 for zj, lj in ((zs[j], "s"), (zp[j], "p")):
-                    if zi <= 0 or zj <= 0:
+                    if zi <= 0 or zj <= 0 or zi == zj:
                         continue
-                    ba = 0.5 * ra * abs(zi - zj) - 0.5
-                    bb = 0.5 * rb * abs(zi - zj) - 0.5
-                    if ba * bb <= 0 and (ba != 0 or bb != 0):
-                        return f"atoms {i}({M.SYMBOL[member['species'][i]]} {li})-{j}({M.SYMBOL[member['species'][j]]} {lj}) at R = {0.5 * (ra + rb) * a0:.5f} A"
-    return ""
+                    rstar = a0 / abs(zi - zj)  # R at which |beta| = 0.5
+
+                    def g(lam):
+                        return np.linalg.norm((xa[i] - xa[j]) + lam * ((xb[i] - xb[j]) - (xa[i] - xa[j]))) - rstar
+
+                    if g(0.0) * g(1.0) < 0:
+                        lo, hi = 0.0, 1.0
+                        for _ in range(60):
+                            mid = 0.5 * (lo + hi)
+                            if g(lo) * g(mid) <= 0:
+                                hi = mid
+                            else:
+                                lo = mid
+                        txt = f"atoms {i}({M.SYMBOL[member['species'][i]]} {li})-{j}({M.SYMBOL[member['species'][j]]} {lj}) at R = {rstar:.5f} A"
+                        return dict(text=txt, lam=0.5 * (lo + hi))
+    return None
+
+
+def direct_jump(f, k, frames_a, frames_b, lam, h=1e-6):
+    """E(lam + h) - E(lam - h) on the straight segment between two written frames, by fresh single points at a tight
+    threshold: the smooth part contributes |F . dx| * 2h ~ 1e-9 eV, a discontinuity of the surface shows in full."""
+    f2 = dict(f, eps=min(f["eps"], 1e-11))
+    E = []
+    for l_ in (lam - h, lam + h):
+        fr = [(a + l_ * (b - a))[None] for a, b in zip(frames_a, frames_b)]
+        E.append(_single_points(f2, fr)[k, 0])
+    return float(E[1] - E[0])
 
 
 def run_task(task):
@@ -349,9 +374,12 @@ def run_task(task):
     out["jumps"] = []
     for k, e in enumerate(E):
         e = e.copy()
-        for i, J in find_jumps(e):
-            xk = r[f"h5.{k}"]["coordinates/values"]
-            out["jumps"].append(dict(mol=k, step=i, t=i * dt, J=J, bfn=bfn_crossing(mols[k], xk[i], xk[i + 1])))
+        # steps are looked for where the series is smooth enough for a 1e-8 eV step to stand out (dt <= 0.05 fs)
+        for i, J in find_jumps(e) if dt <= JUMP_DT_MAX + 1e-12 else []:
+            xs = [r[f"h5.{j}"]["coordinates/values"] for j in range(len(mols))]
+            cr = bfn_crossing(mols[k], xs[k][i], xs[k][i + 1])
+            jd = direct_jump(f, k, [x_[i] for x_ in xs], [x_[i + 1] for x_ in xs], cr["lam"]) if cr else None
+            out["jumps"].append(dict(mol=k, step=i, t=i * dt, J=J, bfn=(cr["text"] if cr else ""), direct=jd))
             e[i + 1 :] -= J
         out["fluct"].append(float(np.abs(e - e[0]).max()))
     out["x0"] = [r[f"h5.{k}"]["coordinates/values"][0].copy() for k in range(len(mols))]
@@ -493,7 +521,9 @@ def evaluate(chk, fams, verbose=False):
             continue
         byfam.setdefault(fk, {})[(t["kind"], t["dt"])] = r
         if chk:
-            chk.case(key, nontrivial=r["n"] >= 2, outcome=("ok" if not r["problems"] else r["problems"][0][0]))
+            chk.case(key, nontrivial=r["n"] >= 2, outcome=("ok" if not r["problems"] else r["problems"][0][0]),
+                     sample=dict(case=key, steps=r["n"], max_rel_dP=r["stats"]["P"], dL_over_tol=r["stats"]["L"], Ek_row_rel=r["stats"]["Ek"],
+                                 Ep_row_abs=r["stats"]["Ep"], energy_fluctuation=r["fluct"], energy_jumps=len(r["jumps"])))  # fmt: skip
             chk.extra.setdefault("md_steps", 0)
             chk.extra["md_steps"] += r["n"] * (2 if t["kind"] == "rev" else 1)
             for s, v in r["stats"].items():
@@ -510,11 +540,14 @@ def evaluate(chk, fams, verbose=False):
             msg = (
                 f"{key} mol {j['mol']}: total energy steps by {j['J']:.3e} eV between written steps {j['step']} and {j['step'] + 1} "
                 f"(t = {j['t']:.4f} fs) of an otherwise smooth series"
-                + (f"; the overlap B-integral series/closed-form switch |beta| = 0.5 is crossed there by {j['bfn']}" if j["bfn"] else "")
-            )
+                + (f"; the overlap B-integral series/closed-form switch |beta| = 0.5 is crossed there by {j['bfn']}, and fresh single points "
+                   f"1e-6 of the segment before/after the crossing differ by {j['direct']:.3e} eV" if j["bfn"] else "")
+            )  # fmt: skip
+            confirmed = bool(j["bfn"]) and j["direct"] is not None and abs(j["direct"] - j["J"]) <= 0.2 * abs(j["J"])
             if chk:
                 chk.violation(
-                    _desc(f, "energy_jump", j["mol"], abs(j["J"]), {"dt": t["dt"], "kind": t["kind"], "bfn_boundary": bool(j["bfn"]), "energy_jump_in_family": True}),
+                    _desc(f, "energy_jump", j["mol"], abs(j["J"]), {"dt": t["dt"], "kind": t["kind"], "bfn_boundary": bool(j["bfn"]), "energy_jump_in_family": True, "jump_max_eV": abs(j["J"]),
+                           "surface_step_confirmed": confirmed}),
                     msg, replay={"fam": f},
                 )  # fmt: skip
             else:
@@ -538,6 +571,7 @@ def evaluate(chk, fams, verbose=False):
         jx = {
             "energy_jump_in_family": bool(jumps),
             "bfn_boundary": bool(jumps) and all(bool(j["bfn"]) for j in jumps),
+            "surface_step_confirmed": bool(jumps) and all(bool(j["bfn"]) and j["direct"] is not None and abs(j["direct"] - j["J"]) <= 0.2 * abs(j["J"]) for j in jumps),
             "jump_max_eV": max([abs(j["J"]) for j in jumps], default=0.0),
         }
         # one report per (family, oracle, molecule): the instance farthest from its window, with the number of instances
